@@ -302,6 +302,7 @@ def run(ctx, b, drv):
     for i in range(ngen):
         srcs.append(('derived:%d' % i, gens.derived(gens.rng(ctx.seed, 'derived-C14', i), GV)))
     srcs.extend(doc_forms())
+    srcs.extend(('corpus:%d' % i, c) for i, c in enumerate(gens.SEMANTIC + gens.TARGETS))
     used = 0
     for name, code in srcs:
         ctx.count('c14-programs')
